@@ -22,7 +22,9 @@ ASSUMPTIONS = [
 ]
 SOURCE_FILES = ["barter/src/engine/action/cancel_orders.rs", "barter/src/engine/action/close_positions.rs", "barter/src/strategy/close_positions.rs",
                 "barter/src/engine/state/instrument/mod.rs", "barter/src/engine/state/instrument/filter.rs", "barter-execution/src/order/mod.rs",
-                "barter/src/engine/mod.rs", "barter/src/system/mod.rs"]
+                "barter/src/engine/mod.rs", "barter/src/system/mod.rs", "barter/src/engine/state/order/mod.rs", "barter/src/engine/state/mod.rs",
+                "barter/src/engine/state/instrument/data.rs"]
+PREBUILD = [["python3", "tools/rust2lean_sm.py", "--require", "filters_actions"]]
 CLAIM = True
 TECHNIQUE = ("Lean 4: membership characterisations of the generated request lists (filter / flatMap / filterMap over the indexed instrument list, cid sort proved a permutation), Nodup / strictly-increasing "
              "index arguments for multiplicity, a pointwise lemma for the effect of recording cancels on every table entry, key-uniqueness as an invariant of all engine histories; "
@@ -39,4 +41,10 @@ LEVEL_TEXT = ("Proof. lean/BarterModel/Props/C19.lean proves for EVERY engine st
               "keys_unique_invariant / tables_unique_invariant (the key-uniqueness hypothesis holds after any engine history from empty tables).")
 LEVEL_NOTE = ("Trusted: Lean kernel; axioms propext/Classical.choice/Quot.sound; the hand-written engine model shared with C03 (tied to the code by sampled correspondence through the real Engine::process with real "
               "tokio channels: 300 quick / 10k random + 8.4k enumerated thorough); harness and driver. Delivery (sent => delivered once on the addressed link) is C03's. The spec view for the oracle is the "
-              "(proved) model restricted to the observables the property determines: deliveries per link, the command's sent/error report, every order table.")
+              "(proved) model restricted to the observables the property determines: deliveries per link, the command's sent/error report, every order table. "
+              "InstrumentFilter, InstrumentStates::{filtered, instruments, orders, positions, ..}, Orders::orders, Order::to_request_cancel, close_open_positions_with_market_orders and build_ioc_market_order_to_close_position are "
+              "additionally regenerated from the source by tools/rust2lean_sm.py (Generated/Machines4.lean, group filters_actions; IndexMap iterated in insertion order, Either transparent, the FnvHashMap of orders a Bag whose hash order "
+              "is never observed) and proved to be the model's Filter.matches / filtered scope / toRequestCancel / closeRequests: the predicate and the per-order / per-position builders for all inputs with no hypothesis, the filtered "
+              "scope and the closing requests under the reachable-state invariants the model bakes in (key = position, a position / order names its own instrument, gen_cid = the injected generator), the cancel requests of one "
+              "instrument up to permutation (hash order): filters_and_request_generators_agree_with_source. Rejected by the translator by design: cancel_orders itself (hash-ordered requests handed to the ordered send_requests); "
+              "not translated: close_positions, Engine::action.")
